@@ -104,21 +104,18 @@ func init() {
 	reg(&PropSpec{
 		ID: "C16",
 		Harnesses: func(tier string) []HarnessSpec {
-			mw := []string{"delivered-from-bytes", "rejected"}
-			if tier == "thorough" {
-				mw = append(mw, "negative-index-decoded")
-			}
+			mw := []string{"delivered-from-bytes", "rejected", "negative-index-decoded"}
 			return []HarnessSpec{
 				{Name: "reader-envelope", Pkg: "remote", Func: "ZZ_C16_Reader", Params: pm("M", tierSel(tier, 2, 3)),
 					Witnesses: []string{"delivered"}, Deadline: 30 * time.Minute},
-				{Name: "decoder-on-arbitrary-bytes", Pkg: "remote", Func: "ZZ_C16_Bytes", Params: pm("N", tierSel(tier, 3, 7)),
+				{Name: "decoder-on-arbitrary-bytes", Pkg: "remote", Func: "ZZ_C16_Bytes", Params: pm("N", tierSel(tier, 5, 7)),
 					Witnesses: []string{"accepted", "accepted-with-message", "rejected"}, Deadline: 120 * time.Minute},
-				{Name: "message-body-bytes", Pkg: "remote", Func: "ZZ_C16_MsgBytes", Params: pm("K", tierSel(tier, 4, 7)),
+				{Name: "message-body-bytes", Pkg: "remote", Func: "ZZ_C16_MsgBytes", Params: pm("K", tierSel(tier, 6, 8)),
 					Witnesses: mw, Deadline: 120 * time.Minute},
 			}
 		},
 		Bounds: func(tier string) string {
-			return fmt.Sprintf("(a) one decoded envelope: 0..2 type names (from {two known, one unknown}), 0..2 targets (registered or not), 0..2 senders, 1..%d messages whose TargetIndex/SenderIndex/TypeNameIndex are unconstrained symbolic int32; (b) Envelope.UnmarshalVT (+ PID/Message.UnmarshalVT, skip) on every byte string of length 0..%d (each byte symbolic), followed by streamReader.Receive on whatever it accepts; (c) a well-formed table prefix (1..2 type names, 2 targets, 0..1 sender, real MarshalVT) followed by one Messages field with 0..%d symbolic body bytes, decoded and fed to the reader", tierSel(tier, 2, 3), tierSel(tier, 3, 7), tierSel(tier, 4, 7))
+			return fmt.Sprintf("(a) one decoded envelope: 0..2 type names (from {two known, one unknown}), 0..2 targets (registered or not), 0..2 senders, 1..%d messages whose TargetIndex/SenderIndex/TypeNameIndex are unconstrained symbolic int32; (b) Envelope.UnmarshalVT (+ PID/Message.UnmarshalVT, skip) on every byte string of length 0..%d (each byte symbolic), followed by streamReader.Receive on whatever it accepts; (c) a well-formed table prefix (1..2 type names, 2 targets, 0..1 sender, real MarshalVT) followed by one Messages field with 0..%d symbolic body bytes, decoded and fed to the reader", tierSel(tier, 2, 3), tierSel(tier, 5, 7), tierSel(tier, 6, 8))
 		},
 		Outside:     []string{"byte strings longer than the bounds (a delivery needs >= 6 bytes: whole-buffer deliveries are reached only in the thorough tier; the message-body harness reaches them in both)", "DRPC framing in front of the envelope bytes", "payload decoding: the Deserializer is a stub (fails for the unknown type name in (a), numbers its calls in (b)/(c))", "more than one envelope per stream"},
 		Assumptions: seqAssume("stream = stub returning the envelope then an error; engine = bare engine with two recording processes (actor harness helper)"),
@@ -178,13 +175,29 @@ func init() {
 	reg(&PropSpec{
 		ID: "C15",
 		Harnesses: func(tier string) []HarnessSpec {
-			return []HarnessSpec{{Name: "writer-reader-roundtrip", Pkg: "remote", Func: "ZZ_C15_RoundTrip", Params: pm("N", tierSel(tier, 2, 3), "SL", 2),
-				Witnesses: []string{"mixed-nil-sender", "unserialisable"}, Deadline: 30 * time.Minute}}
+			hs := []HarnessSpec{
+				{Name: "writer-reader-roundtrip", Pkg: "remote", Func: "ZZ_C15_RoundTrip", Params: pm("N", tierSel(tier, 2, 3), "SL", 2, "WIRE", 0),
+					Witnesses: []string{"mixed-nil-sender", "unserialisable"}, Deadline: 30 * time.Minute},
+				{Name: "writer-codec-reader-roundtrip", Pkg: "remote", Func: "ZZ_C15_RoundTrip", Params: pm("N", 2, "SL", 2, "WIRE", 1),
+					Witnesses: []string{"mixed-nil-sender", "unserialisable"}, Deadline: 30 * time.Minute},
+			}
+			// the wire codec alone: each index field in turn over the whole int32 range, the others 0..127
+			for _, w := range []int{1, 2, 4} {
+				hs = append(hs, HarnessSpec{Name: fmt.Sprintf("codec-wide-index(mask %d)", w), Pkg: "remote", Func: "ZZ_C15_Codec",
+					Params: pm("M", 1, "WIDE", w, "D", 2, "TABLES", 0), Witnesses: []string{"ten-byte-varint-possible"}, Deadline: 30 * time.Minute})
+			}
+			if tier == "thorough" {
+				hs = append(hs,
+					HarnessSpec{Name: "codec-all-three-indices-wide", Pkg: "remote", Func: "ZZ_C15_Codec", Params: pm("M", 1, "WIDE", 7, "D", 1, "TABLES", 0), Witnesses: []string{"ten-byte-varint-possible"}, Deadline: 60 * time.Minute},
+					HarnessSpec{Name: "codec-two-messages-one-wide-each", Pkg: "remote", Func: "ZZ_C15_Codec", Params: pm("M", 2, "WIDE", 1|32, "D", 1, "TABLES", 0), Witnesses: []string{"ten-byte-varint-possible"}, Deadline: 60 * time.Minute},
+					HarnessSpec{Name: "codec-table-shapes", Pkg: "remote", Func: "ZZ_C15_Codec", Params: pm("M", 1, "WIDE", 2, "D", 1, "TABLES", 1), Deadline: 60 * time.Minute})
+			}
+			return hs
 		},
 		Bounds: func(tier string) string {
-			return fmt.Sprintf("batches of 1..%d messages to 2 targets on the receiving node; per message: sender absent or a PID whose address and id are symbolic strings of 1..2 bytes each (equal senders and senders differing only in the address/id split included), one of 2 type names, symbolic payload byte, symbolic 'cannot be serialised' flag", tierSel(tier, 2, 3))
+			return fmt.Sprintf("(a) batches of 1..%d messages to 2 targets on the receiving node; per message: sender absent or a PID whose address and id are symbolic strings of 1..2 bytes each (equal senders and senders differing only in the address/id split included), one of 2 type names, symbolic payload byte, symbolic 'cannot be serialised' flag; the Envelope is handed over in memory; (b) the same with batches of 1..2 and the Envelope carried as the bytes of the real MarshalVT and decoded by the real UnmarshalVT; (c) the generated codec alone (SizeVT, MarshalVT, UnmarshalVT of Envelope/Message/PID): one message whose TypeNameIndex / SenderIndex / TargetIndex in turn ranges over all of int32 (every varint length class, negative = 10 bytes) while the others range over 0..127, 0..2 symbolic payload bytes%s", tierSel(tier, 2, 3), map[string]string{"quick": "", "thorough": "; thorough: all three indices wide at once, two messages with one wide index each, and table shapes 0..2 x 0..2 x 0..1"}[tier])
 		},
-		Outside:     []string{"protobuf marshalling of payloads and of the Envelope itself (ProtoSerializer, MarshalVT/UnmarshalVT) and DRPC framing: serializer/deserializer are stubs and the Envelope value is handed over in memory", "a payload that is not a proto.Message (ProtoSerializer.TypeName type assertion)", "targets on several addresses (one stream writer serves one address)", "longer batches and strings"},
+		Outside:     []string{"protobuf marshalling of the payloads (ProtoSerializer, protobuf reflection): serializer/deserializer are stubs", "DRPC framing", "a payload that is not a proto.Message (ProtoSerializer.TypeName type assertion)", "targets on several addresses (one stream writer serves one address)", "longer batches and strings", "codec: three or more simultaneously multi-byte indices across several messages"},
 		Assumptions: seqAssume("writer = real streamWriter.Invoke with a stub stream/conn; reader = real streamReader.Receive on a bare engine with recording processes; xxh3.Hash, where still used, is an uninterpreted function with injectivity instances"),
 	})
 
@@ -236,12 +249,14 @@ func init() {
 			return []HarnessSpec{
 				{Name: "spawn-stop-respawn", Pkg: "actor", Func: "ZZ_C10_Seq", Params: pm("K", tierSel(tier, 5, 6)), Witnesses: []string{"duplicate-spawn", "respawn-after-stop"}},
 				l2(10, tierSel(tier, 1, 2), 2, 0),
+				{Name: "id-respawned-while-owner-shuts-down", Pkg: "actor", Func: "ZZ_C08", Preempt: tierSel(tier, 1, 2), Params: pm("D", 1, "F", 2, "mode", 1),
+					Witnesses: []string{"root-id-respawned-during-shutdown"}, Deadline: 60 * time.Minute, ReplayAttempts: 8},
 			}
 		},
 		Bounds: func(tier string) string {
-			return fmt.Sprintf("sequential histories of %d operations spawn/send/stop/deliver on one id (operation symbolic); threaded: two concurrent SpawnProc of one id + %d sender(s) x 2 messages, preemption bound 2", tierSel(tier, 5, 6), tierSel(tier, 1, 2))
+			return fmt.Sprintf("sequential histories of %d operations spawn/send/stop/deliver on one id (operation symbolic); threaded: two concurrent SpawnProc of one id + %d sender(s) x 2 messages, preemption bound 2; a parent with 2 children is stopped/poisoned while another goroutine spawns the parent's id again (real inboxes, preemption bound %d): the id is only taken again once the previous owner's children have handled Stopped and are unregistered", tierSel(tier, 5, 6), tierSel(tier, 1, 2), tierSel(tier, 1, 2))
 		},
-		Outside:     []string{"SpawnChild (same Registry.add path)", "Stop concurrent with Spawn", "several ids (the registry map is keyed by id; ids do not interact)"},
+		Outside:     []string{"SpawnChild (same Registry.add path)", "several ids (the registry map is keyed by id; ids do not interact)", "the window between an actor's unregistration and its own Stopped handler (a respawn accepted there is not flagged)"},
 		Assumptions: thrAssume("L1 (fake inbox) for the sequential histories, L2 (real Inbox) for the concurrent spawns"),
 	})
 
@@ -261,13 +276,17 @@ func init() {
 	reg(&PropSpec{
 		ID: "C08",
 		Harnesses: func(tier string) []HarnessSpec {
-			return []HarnessSpec{{Name: "supervision-tree", Pkg: "actor", Func: "ZZ_C08", Preempt: tierSel(tier, 1, 2), Params: pm("D", 1, "F", 2),
-				Witnesses: []string{"child-stopped-on-its-own", "third-party-poisons-child-during-shutdown"}, Deadline: 60 * time.Minute, ReplayAttempts: 8}}
+			return []HarnessSpec{
+				{Name: "supervision-tree", Pkg: "actor", Func: "ZZ_C08", Preempt: tierSel(tier, 1, 2), Params: pm("D", 1, "F", 2, "mode", 0),
+					Witnesses: []string{"child-stopped-on-its-own", "third-party-poisons-child-during-shutdown", "child-panics-in-Stopped"}, Deadline: 60 * time.Minute, ReplayAttempts: 8},
+				{Name: "stopping-child-is-replaced", Pkg: "actor", Func: "ZZ_C08", Preempt: 2, Params: pm("D", 1, "F", 2, "mode", 2),
+					Witnesses: []string{"replacement-spawned"}, Deadline: 60 * time.Minute, ReplayAttempts: 8},
+			}
 		},
 		Bounds: func(tier string) string {
-			return fmt.Sprintf("tree of depth 1 and fan-out 2 with real inboxes; phase 1: optionally one child is poisoned by a third party and has stopped, then Children() is probed; phase 2: the root is stopped or poisoned, optionally while a third party poisons one child concurrently; preemption bound %d", tierSel(tier, 1, 2))
+			return fmt.Sprintf("tree of depth 1 and fan-out 2 with real inboxes; phase 1: optionally one child is poisoned by a third party and has stopped, then Children() is probed; phase 2: the root is stopped or poisoned, optionally while a third party poisons one child concurrently, or while one child panics (once) in its Stopped handler; preemption bound %d. Second harness: a third party poisons a child, which asks the root for a replacement under the same name and id from inside its Stopped handler (the root may handle the request while the old incarnation is still finishing); afterwards Children() lists the live replacement and a shutdown of the root takes it down; preemption bound 2", tierSel(tier, 1, 2))
 		},
-		Outside:     []string{"children that crash during the shutdown", "deeper / wider trees (depth 2 did not finish within 10 minutes and is not registered)", "map iteration order of the children map: one order explored symbolically (native replays see Go's random order, hence several replay attempts)"},
+		Outside:     []string{"children that crash on user messages during the shutdown", "deeper / wider trees (depth 2 did not finish within 10 minutes and is not registered)", "map iteration order of the children map: one order explored symbolically (native replays see Go's random order, hence several replay attempts)"},
 		Assumptions: thrAssume("bare engine, real process/Inbox/Context/SafeMap; node receivers record Stopped and check their descendants at that instant; the stop context's cancellation instant is observed through the context model's OnCancel hook"),
 	})
 
